@@ -8,7 +8,6 @@ import (
 	"math"
 	"strings"
 
-	"github.com/shopspring/decimal"
 	"google.golang.org/protobuf/proto"
 	"google.golang.org/protobuf/reflect/protoreflect"
 )
@@ -192,8 +191,8 @@ func (x *differ) single(fd protoreflect.FieldDescriptor, va, vb protoreflect.Val
 		ma, mb := va.Message(), vb.Message()
 		switch fd.Message().FullName() {
 		case fnDecimal:
-			da, ea := decimal.NewFromString(getStr(ma, "value"))
-			db, eb := decimal.NewFromString(getStr(mb, "value"))
+			da, ea := safeDecimal(getStr(ma, "value"))
+			db, eb := safeDecimal(getStr(mb, "value"))
 			if ea != nil || eb != nil || !da.Equal(db) {
 				x.report("decimal", path, "%q -> %q", getStr(ma, "value"), getStr(mb, "value"))
 			}
